@@ -528,6 +528,54 @@ func canonicalConstruct(s string) string {
 	return out.String()
 }
 
+// namesGone: a rename of a variable removes the old name from the function. The variable names that
+// the row's construct has and the new construct has not must not occur as identifiers anywhere in the
+// function any more; if one still does, the expression now uses ANOTHER variable (a[i] became a[j]),
+// which is a different construct, not a renamed one.
+func (c *Ctx) namesGone(fn, oldC, newC string) bool {
+	words := func(s string) map[string]bool {
+		out := map[string]bool{}
+		rs := []rune(s)
+		for i := 0; i < len(rs); {
+			if !(rs[i] == '_' || unicode.IsLetter(rs[i])) {
+				i++
+				continue
+			}
+			j := i
+			for j < len(rs) && (rs[j] == '_' || unicode.IsLetter(rs[j]) || unicode.IsDigit(rs[j])) {
+				j++
+			}
+			if !(i > 0 && rs[i-1] == '.') && !(j < len(rs) && rs[j] == '(') {
+				out[string(rs[i:j])] = true
+			}
+			i = j
+		}
+		return out
+	}
+	top := fn
+	if i := strings.Index(top, "$"); i > 0 {
+		top = top[:i]
+	}
+	fd := c.funcDecl(top)
+	if fd == nil || fd.Body == nil {
+		return false
+	}
+	present := map[string]bool{}
+	ast.Inspect(fd, func(n ast.Node) bool {
+		if id, ok := n.(*ast.Ident); ok {
+			present[id.Name] = true
+		}
+		return true
+	})
+	nw := words(newC)
+	for w := range words(oldC) {
+		if !nw[w] && present[w] {
+			return false
+		}
+	}
+	return true
+}
+
 func (c *Ctx) rematchMoved() {
 	strip := func(k string) string {
 		if i := strings.LastIndex(k, "#"); i > 0 {
@@ -578,7 +626,8 @@ func (c *Ctx) rematchMoved() {
 			row := c.table[k]
 			sameText := row.Rule+"|"+strip(row.Construct) == want
 			// or: the same function, and the same expression up to the names of its variables (a local was renamed)
-			renamed := row.Rule == o.Rule && row.Fn == o.Fn && canonicalConstruct(strip(row.Construct)) == canonicalConstruct(strip(o.Construct))
+			renamed := row.Rule == o.Rule && row.Fn == o.Fn && canonicalConstruct(strip(row.Construct)) == canonicalConstruct(strip(o.Construct)) &&
+				c.namesGone(o.Fn, strip(row.Construct), strip(o.Construct))
 			if !sameText && !renamed {
 				continue
 			}
